@@ -325,15 +325,13 @@ Qed.
 
 Theorem alloc_frame_bounded : forall pver net ebs bs,
   MultipleAddressVersion <= pver ->
-  (24 <= len bs -> known_cmd (hdr_cmd bs) <> Some KVersion) ->
   alloc_frame pver net ebs bs <= alloc_limit pver ebs bs.
 Proof.
-  intros pver net ebs bs Hpv Hnv. unfold alloc_frame, alloc_limit.
+  intros pver net ebs bs Hpv. unfold alloc_frame, alloc_limit.
   destruct (read_n MessageHeaderSize bs) as [[h r]|e] eqn:Hrd; [|lia].
   assert (H24 : 24 <= len bs).
   { apply read_n_inv in Hrd. destruct Hrd as [Hb Hl]. unfold len. rewrite Hb, app_length.
     unfold MessageHeaderSize in Hl. lia. }
-  specialize (Hnv H24).
   destruct (read_header bs H24) as [Hrd' [Hm [Hc [Hl [Hk Hcl]]]]].
   rewrite Hrd' in Hrd.
   assert (Hh : h = firstn 24 bs) by congruence. assert (Hr : r = skipn 24 bs) by congruence.
@@ -349,7 +347,7 @@ Proof.
   destruct (read_N (hdr_len bs) (skipn 24 bs)) as [[payload rest]|e]; [|lia].
   destruct (negb (list_eqb (checksum payload) (hdr_ck bs))); [lia|].
   assert (Ha : alloc_payload pver (max_message_payload ebs) k payload <= max_payload k pver ebs).
-  { apply alloc_bounded; [congruence|intros _; exact Hpv]. }
+  { apply alloc_bounded. intros _. exact Hpv. }
   lia.
 Qed.
 
